@@ -151,9 +151,8 @@ def pair_slots(fn, nargs):
 def norm_query(via, fn, args):
     """what the call means once the formula layer has read its arguments: a 1x1 range read through a formula arrives
     as a scalar, and a blank scalar as the optional third argument of SUMIF/AVERAGEIF is `None`, i.e. not given"""
-    if via != 'f':
-        return fn, args
-    args = [a[2] if isinstance(a, list) and a[0] == 1 and a[1] == 1 else a for a in args]
+    if via == 'f':
+        args = [a[2] if isinstance(a, list) and a[0] == 1 and a[1] == 1 else a for a in args]
     if fn in ('sumif', 'averageif') and len(args) == 3 and args[2] == 'z':
         args = args[:2]
     return fn, args
